@@ -701,8 +701,10 @@ class ComponentProjectionAdjoint(Operator):
             out.set_zero()
 
         if (isinstance(self.index, list) and
-                len(set(self.index)) < len(self.index)):
-            # A component selected several times collects all contributions
+                len(set(i % len(self.range) for i in self.index)) <
+                len(self.index)):
+            # A component selected several times (possibly once with a
+            # negative index) collects all contributions
             for i, xi in zip(self.index, x):
                 out[i] += xi
         else:
